@@ -84,6 +84,10 @@ def ensure_facts(config='default', repo=None, quiet=False):
     out = os.path.join(CACHE, th, config)
     marker = os.path.join(out, 'ok.json')
     if os.path.exists(marker):
+        try:
+            os.utime(out)   # LRU: keep entries that are in use
+        except OSError:
+            pass
         return out, json.load(open(marker))
     os.makedirs(CACHE, exist_ok=True)
     os.makedirs(WORK, exist_ok=True)
@@ -148,7 +152,7 @@ def ensure_facts(config='default', repo=None, quiet=False):
         lock.close()
 
 
-def _prune_cache(keep, limit=12):
+def _prune_cache(keep, limit=40):
     try:
         ents = [(os.path.getmtime(os.path.join(CACHE, e)), e) for e in os.listdir(CACHE) if e != keep]
         ents.sort()
